@@ -596,6 +596,20 @@ func ruleNoSemiHazards(c *Ctx, t *tables, g *grammarModel) {
 		for _, f := range c.libFunctions() {
 			allInstrs(f, func(_ *ssa.BasicBlock, _ int, in ssa.Instruction) {
 				if ci, ok := in.(ssa.CallInstruction); ok && ci.Common().StaticCallee() == sg.closer {
+					if forwardsByteTo(f, sg.closer) {
+						// a forwarder: judged at its own callers
+						for _, g2 := range c.libFunctions() {
+							allInstrs(g2, func(_ *ssa.BasicBlock, _ int, in2 ssa.Instruction) {
+								if ci2, ok := in2.(ssa.CallInstruction); ok && ci2.Common().StaticCallee() == f {
+									if !(g2.Signature.Recv() != nil && namedIs(g2.Signature.Recv().Type(), "ast", "CodeWriter") && textWriter[g2.Name()]) {
+										okCallers = false
+										c.bad(fmt.Sprintf("%s: consults the closer through %s", fnName(g2), f.Name()), in2.Pos(), "the closer is consulted for text that is not a statement's first token: the flag is used up (and no ';' written) before the statement that needs it")
+									}
+								}
+							})
+						}
+						return
+					}
 					if !(f.Signature.Recv() != nil && namedIs(f.Signature.Recv().Type(), "ast", "CodeWriter") && textWriter[f.Name()]) {
 						okCallers = false
 						c.bad(fmt.Sprintf("%s: consults the closer", fnName(f)), in.Pos(), "the closer is consulted for text that is not a statement's first token: the flag is used up (and no ';' written) before the statement that needs it")
